@@ -226,7 +226,7 @@ def run(ctx):
         "CsvEquiv (DemuxGen.tla): in a CSV file NULL and the empty string share one encoding; with the default reader options a string column stored "
         "in the file reads both back as NULL; partition columns are exact; JSON (NULL = omitted key) and Parquet are exact",
         "NULL partition values have no Hive directory: a write that holds one must fail or read back exactly (INSERT fails: partition columns of a "
-        "listing table are NOT NULL; COPY / DataFrame writes do not: known finding)",
+        "listing table are NOT NULL; COPY / DataFrame writes fail in the demuxer since /repo 84b2676, before that they filed NULL under '' / 0 / false)",
         "files are written to the local file system below work/C25/out and read back in a fresh SessionContext with an explicit schema "
         "(CREATE EXTERNAL TABLE, or ListingTable API); CSV is read with newlines_in_values=true (the pool holds a newline); "
         "execution.keep_partition_by_columns=true and Arrow IPC files are not exercised",
